@@ -102,10 +102,11 @@ func c19(tier string) []*explore.Scenario {
 	for _, cp := range []int{0, 1, 2} {
 		out = append(out, c19Channel(cp, bound))
 	}
-	out = append(out, c19ChannelCtx(), c19HTTPShapes(), c19HTTPDuplex(), c19HTTPCtx(), c19HTTPWriteCtx(), c19HTTPRaw())
+	out = append(out, c19ChannelCtx(), c19HTTPShapes(), c19HTTPDuplex(), c19HTTPCtx(), c19HTTPWriteCtx(), c19HTTPRaw(), c19HTTPMapper())
 	for _, pending := range []string{"sender", "reader", "both", "none", "reader-after-abandoned-read"} {
 		out = append(out, c19HTTPIdle(pending, bound))
 	}
+	out = append(out, c19HTTPTickVsRegistration(bound))
 	out = append(out, c19WebSocket(tier == "thorough"))
 	return out
 }
@@ -454,6 +455,120 @@ func c19HTTPRaw() *explore.Scenario {
 			}
 			vsched.Count("inputs", int64(len(raw)))
 			vsched.Obs("http raw bodies=%d", len(raw))
+			goh.Cancel()
+			vsched.Quiesce()
+		},
+	}
+}
+
+// c19HTTPMapper: the caller's source-to-address function is asked for every
+// request and may change its mind: accept a source, later refuse it, later map
+// it to another address. A request it refuses is answered 400 and never
+// delivered; a request it maps to another address goes to that address's connection.
+func c19HTTPMapper() *explore.Scenario {
+	fam := "C19/http"
+	return &explore.Scenario{
+		Name: "C19/http/source-mapper-changes", Family: fam, Prop: "C19", Bound: 1,
+		Run: func() {
+			phase := 0
+			got := map[string][]uint64{}
+			goh := goat.NewGoatOverHttp(func(id string, rw goat.RpcReadWriter) {
+				vsched.GoNamed("reader-"+id, func() {
+					for {
+						r, err := rw.Read(context.Background())
+						if err != nil {
+							return
+						}
+						got[id] = append(got[id], r.Id)
+					}
+				})
+			}, func(src string) (string, error) {
+				switch phase {
+				case 0:
+					return "addr-A", nil
+				case 1:
+					return "", fmt.Errorf("source %s is no longer welcome", src)
+				}
+				return "addr-B", nil
+			}, goat.WithClock(env.NewClock()))
+			vsched.Settle()
+			vsched.Explore(true)
+			msg := func(id uint64) io.Reader {
+				b, _ := proto.Marshal(&env.Rpc{Id: id, Header: &goatorepo.RequestHeader{Method: "/a/B", Source: "peer", Destination: "d"}})
+				return bytes.NewReader(b)
+			}
+			var codes []int
+			for ph := 0; ph < 3; ph++ {
+				phase = ph
+				c := 0
+				vsched.GoNamed("poster", func() { c = post(goh, msg(uint64(ph+1))) })
+				vsched.Quiesce()
+				codes = append(codes, c)
+			}
+			vsched.Obs("codes=%v got=%v", codes, got)
+			if fmt.Sprint(codes) != "[200 400 200]" {
+				vsched.Fail(fam+"|bad-request-accepted", "the source mapper accepted, refused, then re-mapped the source: the three requests were answered %v, want [200 400 200]", codes)
+			}
+			if fmt.Sprint(got["addr-A"]) != "[1]" || fmt.Sprint(got["addr-B"]) != "[3]" {
+				vsched.Fail(fam+"|bad-request-delivered", "the source mapper accepted (addr-A), refused, then mapped to addr-B: connection addr-A received %v, addr-B received %v; want [1] and [3]", got["addr-A"], got["addr-B"])
+			}
+			goh.Cancel()
+			vsched.Quiesce()
+		},
+	}
+}
+
+// c19HTTPTickVsRegistration: the cleaner's tick coincides with new connections
+// being registered (a first request from a new source, NewConnection for a new
+// destination) and with a failing Write unregistering one. Everything stays
+// consistent: the new connections work, nothing crashes (and C15 runs this with
+// the race detector on the connection table).
+func c19HTTPTickVsRegistration(bound int) *explore.Scenario {
+	fam := "C19/http-idle"
+	return &explore.Scenario{
+		Name: "C19/http/tick-vs-registration", Family: fam, Prop: "C19", Bound: bound,
+		Run: func() {
+			clk := env.NewClock()
+			old := http.DefaultTransport
+			http.DefaultTransport = &c19RT{hosts: map[string]http.Handler{}} // every Write fails: no route to host
+			defer func() { http.DefaultTransport = old }()
+			got := map[string]int{}
+			goh := goat.NewGoatOverHttp(func(id string, rw goat.RpcReadWriter) {
+				vsched.GoNamed("reader-"+id, func() {
+					for {
+						if _, err := rw.Read(context.Background()); err != nil {
+							return
+						}
+						got[id]++
+					}
+				})
+			}, func(s string) (string, error) { return s, nil },
+				goat.WithClock(clk), goat.WithConnectionCleanupInterval(time.Minute), goat.WithConnectionTimeout(4*time.Minute))
+			msg := func(id uint64, src string) io.Reader {
+				b, _ := proto.Marshal(&env.Rpc{Id: id, Header: &goatorepo.RequestHeader{Method: "/a/B", Source: src, Destination: "d"}})
+				return bytes.NewReader(b)
+			}
+			// an existing connection, so that the table is not empty
+			vsched.GoNamed("poster0", func() { post(goh, msg(1, "old")) })
+			vsched.Settle()
+			vsched.Explore(true)
+			code := 0
+			vsched.GoNamed("poster-new", func() { code = post(goh, msg(2, "new-source")) })
+			var nc goat.RpcReadWriter
+			vsched.GoNamed("dialler", func() { nc = goh.NewConnection("new-destination") })
+			vsched.GoNamed("failing-writer", func() {
+				c := goh.NewConnection("doomed")
+				c.Write(context.Background(), &env.Rpc{Id: 9, Header: &goatorepo.RequestHeader{Method: "/a/B", Source: "me", Destination: "doomed"}})
+			})
+			vsched.GoNamed("clock", func() { clk.Advance(time.Minute) })
+			vsched.Quiesce()
+			vsched.Obs("code=%d got=%v nc=%v", code, got, nc != nil)
+			if code != http.StatusOK || got["new-source"] != 1 {
+				vsched.Fail(fam+"|new-connection-lost", "a first request from a new source arrived while the cleaner ticked: answered %d, delivered %d times", code, got["new-source"])
+			}
+			if nc == nil {
+				vsched.Fail(fam+"|new-connection-lost", "NewConnection returned nil")
+			}
 			goh.Cancel()
 			vsched.Quiesce()
 		},
